@@ -280,8 +280,9 @@ def rule_same_bytes(ctx):
     fp = [n for n in db.calls_in(w, "fputc")]
     pb = [n for n in w.all_nodes() if n["k"] == "call" and (n.get("c") or "").endswith("::push_back")]
     r.require(len(fp) == 1 and len(pb) == 1, "write_byte: fputc sites %d, push_back sites %d" % (len(fp), len(pb)))
-    c1 = set(c for c in _conds(w, fp[0]) if c[0] not in ("cpd.fout", "cpd.bout"))
-    c2 = set(c for c in _conds(w, pb[0]) if c[0] not in ("cpd.fout", "cpd.bout"))
+    SINK_TESTS = ("cpd.fout", "cpd.bout", "cpd.fout != nullptr", "cpd.bout != nullptr", "cpd.fout == nullptr", "cpd.bout == nullptr", "!cpd.fout", "!cpd.bout")
+    c1 = set(c for c in _conds(w, fp[0]) if c[0] not in SINK_TESTS)
+    c2 = set(c for c in _conds(w, pb[0]) if c[0] not in SINK_TESTS)
     r.check(c1 == c2, "write_byte/same-condition", db.loc(w, fp[0]), "file sink under %s, memory sink under %s" % (sorted(c1), sorted(c2)))
     # the two sinks are independent of each other: the memory copy (what --check compares) is filled whether or not a file
     # is being written - main() runs --check on stdin with stdout as the file sink
